@@ -23,6 +23,7 @@ type Step struct {
 	Vis []int  `json:"vis"`
 	Hi  []int  `json:"hi,omitempty"`  // RefreshPublish: upper bound per provider (newest version any fetch returned)
 	Str int    `json:"str,omitempty"` // GetHit: 1 if the write map holds an entry for p (strict), 0 if only a deletion marker
+	Au  int    `json:"au,omitempty"`  // GetHit: the lookup finds the refresh interval elapsed; the automatic refresh 1 = takes the writer lock, 2 = waits for the writer at work
 }
 
 type Config struct {
@@ -31,6 +32,7 @@ type Config struct {
 	TickLen     int
 	Unit        time.Duration
 	Watchdog    time.Duration
+	Auto        bool // the cache is built with a refresh interval (elapsed only when the driver says so)
 }
 
 type result struct {
@@ -79,7 +81,11 @@ func NewDriver(cfg Config) (*Driver, error) {
 		d.content[s] = map[string]int{}
 		d.up[s] = true
 	}
-	pc, err := pcache.New(pcache.WithSource(srcs...), pcache.WithPreload(false), pcache.WithRefreshInterval(0),
+	interval := time.Duration(0)
+	if cfg.Auto {
+		interval = time.Hour // never elapses by itself: the driver elapses it where the behaviour says so
+	}
+	pc, err := pcache.New(pcache.WithSource(srcs...), pcache.WithPreload(false), pcache.WithRefreshInterval(interval),
 		pcache.WithTTL(time.Duration(cfg.TTLUnits)*cfg.Unit))
 	if err != nil {
 		return nil, err
@@ -134,6 +140,33 @@ func (d *Driver) waitArrival(w *wcall) (*call, *result) {
 			return nil, &r
 		case <-t.C:
 			return nil, nil
+		}
+	}
+}
+
+// waitUnknownArrival waits for a source call from a goroutine the driver did not start (the automatic refresh).
+func (d *Driver) waitUnknownArrival() *call {
+	known := func(g int64) bool {
+		return (d.wr != nil && d.wr.gid == g) || (d.wt != nil && d.wt.gid == g)
+	}
+	for i, c := range d.stash {
+		if !known(c.gid) {
+			d.stash = append(d.stash[:i], d.stash[i+1:]...)
+			return c
+		}
+	}
+	t := time.NewTimer(d.cfg.Watchdog)
+	defer t.Stop()
+	for {
+		select {
+		case c := <-d.sim.arrive:
+			if known(c.gid) {
+				d.stash = append(d.stash, c)
+				continue
+			}
+			return c
+		case <-t.C:
+			return nil
 		}
 	}
 }
@@ -367,6 +400,9 @@ func (d *Driver) Apply(idx int, st *Step) bool {
 		d.Snapshots = append(d.Snapshots, st.Vis)
 		d.PubIdx.Add(1)
 	case "GetHit":
+		if st.Au != 0 {
+			d.pc.VerifElapseRefreshInterval()
+		}
 		w := d.startGet(st.P)
 		var r result
 		t := time.NewTimer(d.cfg.Watchdog)
@@ -397,6 +433,23 @@ func (d *Driver) Apply(idx int, st *Step) bool {
 		w.cancel()
 		if r.err != nil || versionOf(r.pi) != st.Ret {
 			return d.fail("get-mismatch", "Get(%s) returned version %d err=%v, model %d", st.P, versionOf(r.pi), r.err, st.Ret)
+		}
+		switch st.Au {
+		case 1: // the automatic refresh, a goroutine of the library's own, has the writer lock: it arrives at source 1
+			c := d.waitUnknownArrival()
+			if c == nil {
+				return d.fail("auto-refresh-missing", "Get(%s) found the refresh interval elapsed, but no automatic refresh reached the first source", st.P)
+			}
+			d.wr = &wcall{kind: "refresh", cancel: func() {}, done: goneChan(c.gid), gid: c.gid, parked: c}
+			if c.src != 1 || !c.all {
+				return d.fail("source-order", "automatic refresh reached source %d (all=%v) first", c.src, c.all)
+			}
+		case 2: // ... or waits for the writer at work
+			gid := findBlocked("getReadOnly.func", "ProviderCache).Refresh", d.cfg.Watchdog)
+			if gid == 0 {
+				return d.fail("auto-refresh-missing", "Get(%s) found the refresh interval elapsed, but no automatic refresh is waiting for the writer lock", st.P)
+			}
+			d.wt = &wcall{kind: "piggy", cancel: func() {}, done: goneChan(gid), gid: gid}
 		}
 	case "MissBegin":
 		if !d.miss(d.startGet(st.P), st, st.V == 1) {
